@@ -867,6 +867,8 @@ func (p *parser) parse(g *grammar) (val any, err error) {
 	}
 
 	p.read() // advance to first rune
+	// a failure at offset 0 is reported at the position of the first rune
+	p.maxFailPos = p.pt.position
 	val, ok = p.parseRuleWrap(startRule)
 	if !ok {
 		if len(*p.errs) == 0 {
